@@ -450,9 +450,36 @@ def rule_sizes(chk, prog, cg):
             (r.bad if bad else r.ok)(e, root.where(), bad or "%d functions reachable, %d extent writers" % (len(reach), n_w))
 
 
+def rule_done_reset(chk, prog):
+    """A caller-owned TestConvergence carries old_stress / iterations from the previous layout unless the new layout resets it."""
+    from ..cfg import CFG
+    r = chk.rule("CONVERGENCE-RESET", "the constructors of ConstrainedFDLayout and ConstrainedMajorizationLayout call done->reset() on every path "
+                 "(after substituting their own TestConvergence for a null argument): a test object shared between two layouts otherwise makes "
+                 "the second layout compare its first stress with the first layout's last one and stop after one step -- results then depend "
+                 "on what was laid out before", floor=2)
+    k = 0
+    for f in prog.all_functions():
+        if f.kind != "ctor" or f.tmpl == "pattern" or f.body is None or f.cls not in ("cola::ConstrainedFDLayout", "cola::ConstrainedMajorizationLayout"):
+            continue
+        if f.d.get("copy") or f.d.get("move") or f.d.get("defaulted"):
+            continue
+        k += 1
+        r.count()
+        g = CFG(f)
+        rs = [c for c in calls(f) if c.get("cname") == "cola::TestConvergence::reset" and norm(call_object(c)) in ("done", "this.done")]
+        w = g.exit_reachable_avoiding([c["id"] for c in rs]) if rs else []
+        if w is not None:
+            r.bad(f.cls.split("::")[-1] + " constructor", f.where(), "the convergence test is not reset%s" % ((" on " + g.describe(w)) if w else ""))
+        else:
+            r.ok(f.cls.split("::")[-1] + " constructor", f.loc(rs[0]))
+    if k < 2:
+        raise AnalysisBroken("layout constructors not found")
+
+
 def run(chk):
     prog = chk.load()
     cg = CallGraph(prog)
+    chk.guard(rule_done_reset, chk, prog)
     chk.guard(rule_translators, chk, prog)
     chk.guard(rule_creator, chk, prog)
     chk.guard(rule_projection, chk, prog)
